@@ -13,7 +13,7 @@ from .. import crashsim
 LEVEL = "fault_enumeration"
 SHRINK = (40, 150.0)
 ISOLATE = False  # isolation is per configuration (the whole _config_task runs in a forked child)
-KINDS = ("reference", "die", "raise", "staging-off-named", "staging-off-unnamed", "concurrent", "ioerr", "retry")
+KINDS = ("reference", "die", "raise", "staging-off-named", "staging-off-unnamed", "concurrent", "ioerr", "retry", "torn")
 WHERE = ("boundary", "stage-edge", "interior", "anywhere", "inside-fits-writer")
 
 _REF = {}
@@ -131,6 +131,9 @@ def scn_case(ctx):
         return
     if kind == "retry":
         _retry_case(ctx, cfg, desc, clock, ref)
+        return
+    if kind == "torn":
+        _ioerr_case(ctx, cfg, desc, clock, ref, torn=True)
         return
     if kind.startswith("staging-off"):
         named = kind.endswith("-named")
@@ -255,27 +258,49 @@ def scn_case(ctx):
         ctx.probes["other_files_left_after_failure"] += 1
 
 
-def _ioerr_case(ctx, cfg, desc, clock, ref):
+def _ioerr_case(ctx, cfg, desc, clock, ref, torn=False):
     """The disk refuses (ENOSPC) the j-th file the run opens for writing — a failure raised by
     the stage's own store.  Afterwards the output file must still be a completed prefix
     (k or k+1, as for any failure inside a stage), and every boundary the run goes on to
     complete must show its own table."""
     ch = ctx.ch
     K = ref["K"]
-    j = 1 + ch.draw(max(1, K), "io_write_no")
-    fr = crashsim.fault_run(cfg, desc["rng_seed"], clock, _src(), {"kind": "ioerr", "write_no": j, "step": None})
+    if torn:
+        # a write call of the FITS layer puts half of its bytes on disk, then EIO (or death)
+        j = 1 + ch.draw(max(1, 5 * K), "torn_write_call")
+        mode = ("raise", "die")[ch.draw(4, "torn_mode") == 3]
+        tear = ch.draw(3, "tear_point")  # 0: half; 1: before the last non-blank 80-byte record; 2: at a 512-byte sector boundary
+        fr = crashsim.fault_run(cfg, desc["rng_seed"], clock, _src(),
+                                {"kind": "torn", "write_call": j, "mode": mode, "tear": tear, "sector": ch.draw(64, "tear_sector"), "step": None})
+    else:
+        j = 1 + ch.draw(max(1, K), "io_write_no")
+        mode = "raise"
+        fr = crashsim.fault_run(cfg, desc["rng_seed"], clock, _src(), {"kind": "ioerr", "write_no": j, "step": None})
     rep = fr["report"]
     io = rep.get("io")
+    if torn and rep["status"] == "died":
+        # death inside a stage's write: the statement speaks of death BETWEEN stages; classified only
+        k = io["k"] or 0
+        cls = "absent" if fr["file"] is None else "other"
+        for kk, nm in ((min(K, k), "old"), (min(K, k + 1), "new")):
+            if fr["file"] is not None and crashsim.describe_diff(fr["file"], ref["snaps"][kk]) is None:
+                cls = nm
+                break
+        ctx.faults["torn_write_then_death"] += 1
+        ctx.probes[f"torn_write_death_leaves_{cls}"] += 1
+        ctx.nontrivial = True
+        ctx.log(f"case torn/die write_call={j} -> {io} leaves={cls}")
+        return
     ctx.steps += rep.get("steps", 0)
     ctx.log(f"case ioerr write_no={j} -> fired={io} status={rep['status'][:50]} k_final={rep['k_final']} file={'absent' if fr['file'] is None else len(fr['file'])} mismatch={rep.get('boundary_mismatch')}")
     if not io:
         ctx.probes["fault_step_beyond_run"] += 1
         return
-    ctx.faults["io_error_enospc"] += 1
+    ctx.faults["torn_write_then_eio" if torn else "io_error_enospc"] += 1
     ctx.nontrivial = True
     if rep.get("boundary_mismatch"):
         kk, diff = rep["boundary_mismatch"]
-        ctx.violate("c17.boundary_after_io_error", f"the {j}-th write was refused by the disk, the run went on, and after its stage boundary {kk} the file is not the table of the stages completed so far: {diff}", "ioerr:continued")
+        ctx.violate("c17.boundary_after_io_error", f"{'a write was torn (EIO)' if torn else f'the {j}-th write was refused by the disk'}, the run went on, and after its stage boundary {kk} the file is not the table of the stages completed so far: {diff}", "ioerr:continued")
         return
     k = io["k"] if io["k"] is not None else 0
     if rep["status"] == "returned":
@@ -289,7 +314,8 @@ def _ioerr_case(ctx, cfg, desc, clock, ref):
     if all(diffs):
         ctx.violate(
             "c17.file_after_write_error",
-            f"the disk refused the {j}-th write (ENOSPC on {io['path']}) in stage {k + 1} of {K} and the run raised: the file left on disk is not the last completed prefix: {diffs[0]}",
+            (f"write call {j} of the run put only part of its bytes on disk ({io.get('what')}, {io['path']}) and failed with EIO" if torn else f"the disk refused the {j}-th write (ENOSPC on {io['path']})")
+            + f" in stage {k + 1} of {K} and the run raised: the file left on disk is not the last completed prefix: {diffs[0]}",
             "ioerr:raised",
         )
 
@@ -469,6 +495,8 @@ def _config_task_body(args):
         cases.append([4])
         for j in range(K):  # the disk refuses the j-th write: exhaustive over staged writes
             cases.append([6, j])
+        for i in range(8 if tier == "quick" else 24):  # torn write (half the bytes, then EIO or death) at a seeded write call
+            cases.append([8, rnd.draw(5 * max(1, K), "torn_call"), rnd.draw(4, "torn_mode"), rnd.draw(3, "tear"), rnd.draw(64, "sector")])
         for i in range(3 if tier == "quick" else 6):  # failed run, then a retry in the same process
             cases.append([7, rnd.draw(10**6, "retry_step")])
         for i in range(4 if tier == "quick" else 8):  # concurrent staged runs, seeded interleavings
